@@ -485,17 +485,21 @@ def build_via_reassign(spec, inplace=False):
     before = _scaled(spec, 1.7, 0.6 * size)
     reg = build(before)
     probe = PixCoord(np.array([0.0, 1.5]), np.array([0.25, -2.0]))
-    for use in (lambda: reg.contains(probe), lambda: reg.bounding_box, lambda: reg.area,
-                lambda: reg.to_mask('center'), lambda: reg.as_artist()):
-        try:
-            use()
-        except Exception:
-            pass
+
+    def use_it():
+        for use in (lambda: reg.contains(probe), lambda: reg.bounding_box, lambda: reg.area,
+                    lambda: reg.to_mask('center'), lambda: reg.as_artist()):
+            try:
+                use()
+            except Exception:
+                pass
+    use_it()
     sizes = [k for k in ('radius', 'width', 'height', 'outer_radius', 'outer_width', 'outer_height',
                          'inner_radius', 'inner_width', 'inner_height') if k in spec]
     # shrinking: inner sizes first, so that inner < outer holds at every step
     for k in sorted(sizes, key=lambda n: 0 if n.startswith('inner') else 1):
         setattr(reg, k, spec[k])
+    use_it()        # derived state may be rebuilt here, between the two groups of changes
     if inplace:
         # the coordinate objects the region already holds are modified in place (no attribute assignment happens)
         if 'center' in spec:
